@@ -418,6 +418,7 @@ def tab_cli(run):
     tab_cli_iters(run, pc, usage)
     # 3d. --color on/off table
     tab_cli_color(run, pc)
+    tab_cli_color_everywhere(run)
     # 4. default format and derived file names
     tab_cli_defaults(run, pc, table)
     tab_cli_derive(run)
@@ -950,6 +951,23 @@ def tab_cli_derive_when(run, pc, R="TAB-cli"):
     run.check(not_printing and unnamed, R, R + "|derive|when", f.loc(ct["span"]), "a name is derived only for a group that is not printed and has no output file name",
               "parse_command derives an output file name %s: a group that only prints would fail with `cannot derive safe output filename` (or get a file it did not ask for)" % (
                   "also for groups that print" if not not_printing else "also for groups that already name their file"))
+
+
+def tab_cli_color_everywhere(run, R="TAB-cli"):
+    """`--color=off` is honoured for every diagnostic the driver prints, also for errors about the command line itself: no call of
+    Report::print_all is handed the constant `true`"""
+    n, bad = 0, []
+    for f in run.prog.real_fns():
+        if not f.id.startswith("driver::"):
+            continue
+        for bi, t in f.calls():
+            if (t.get("resolved") or t.get("callee") or "").endswith("Report::print_all"):
+                n += 1
+                flags = [a for a, ty in zip(t["args"], t.get("arg_tys") or []) if ty == "bool"]
+                if len(flags) != 1 or const_int(flags[0]) is not None:
+                    bad.append(f.loc(t["span"]))
+    run.check(n >= 2 and not bad, R, R + "|color|every-print", "-", "every print of the diagnostics takes its colour setting from the command line (%d site(s))" % n,
+              "the driver prints diagnostics with colours switched on unconditionally (%s): `--color=off prog.asm -f bogus` still prints ANSI escapes for the error about the command line" % ", ".join(bad))
 
 
 def tab_cli_distinct_outputs(run, pc, R="TAB-cli"):
